@@ -39,6 +39,15 @@ var (
 
 func main() {
 	flag.Parse()
+	// the host's zone is part of the environment, not of any property: workers run under different local zones
+	switch *fShard % 3 {
+	case 1:
+		time.Local = time.FixedZone("VT", 5*3600+1800)
+	case 2:
+		if l, err := time.LoadLocation("America/St_Johns"); err == nil {
+			time.Local = l
+		}
+	}
 	seed := *fSeed
 	if seed == 0 {
 		if s := os.Getenv("VERIF_SEED"); s != "" {
